@@ -15,7 +15,7 @@ class C02(FullCheck):
   REQUIRED_CLASSES = ('thrift', 'mux', 'timer-before-reply', 'reply:late', 'reply:near-deadline', 'reply:never',
                       'kill-conns', 'io-fault:recv', 'send-stall', 'short-sends', 'reply:undecodable',
                       'unserialisable-argument', 'yielding-log-handler',
-                      'argument-named-timeout-by-keyword', 'parameters-with-descending-ids', 'through-generated-client', 'reply-cut-short-then-eof',
+                      'argument-named-timeout-by-keyword', 'parameters-with-descending-ids', 'calls-outstanding-across-keepalive-pings', 'through-generated-client', 'reply-cut-short-then-eof',
                       'reply:falsy-value')
 
   def bias(self, rng):
